@@ -26,13 +26,72 @@ func weights(over map[string]int) map[string]int {
 }
 
 func profiles(prop string) []hist.Profile {
+	sec, min, hour, day := time.Second, time.Minute, time.Hour, 24*time.Hour
+	_ = sec
 	switch prop {
 	case "C01":
 		return []hist.Profile{
 			{Name: "loss", Ops: 90, Topics: 3, Subs: 4, POrdered: 0.3, PFilter: 0.4, PDL: 0.3, PRetry: 0.6,
-				Retentions: []time.Duration{0, time.Hour, 10 * time.Minute}, Keys: []string{"", "", "k1", "k2"}, W: weights(nil)},
+				Retentions: []time.Duration{0, hour, 10 * min}, Keys: []string{"", "", "k1", "k2"}, W: weights(nil)},
 			{Name: "loss-long", Ops: 220, Topics: 2, Subs: 3, POrdered: 0.3, PFilter: 0.3, PDL: 0.2, PRetry: 0.5,
 				Keys: []string{"", "k1"}, W: weights(map[string]int{"job": 12, "bad": 6})},
+		}
+	case "C02":
+		return []hist.Profile{
+			{Name: "content", Ops: 80, Topics: 2, Subs: 5, POrdered: 0.2, PFilter: 0.6, PDL: 0.15, PRetry: 0.4, Rich: true, Decoy: true,
+				Keys: []string{"", "k", "ünï ḱey", "a/b c"}, W: weights(map[string]int{"publish": 35, "pull": 35, "seek-time": 4, "delete-sub": 2, "create-sub": 3, "foreign": 3, "stream": 5})},
+			{Name: "independence", Ops: 120, Topics: 2, Subs: 6, POrdered: 0.3, PFilter: 0.5, PDL: 0.2, PRetry: 0.4, Decoy: true,
+				Keys: []string{"", "k1"}, W: weights(map[string]int{"ack": 18, "modack": 10, "seek-time": 6, "seek-snapshot": 3, "snapshot": 3, "delete-sub": 3, "create-sub": 4, "update-sub": 4, "foreign": 3})},
+		}
+	case "C03":
+		return []hist.Profile{
+			{Name: "ack", Ops: 120, Topics: 2, Subs: 3, POrdered: 0.35, PFilter: 0.3, PDL: 0.35, PRetry: 0.6, Decoy: true,
+				Keys: []string{"", "k1", "k2"}, MaxAttempt: []int32{2, 3, 5},
+				W: weights(map[string]int{"ack": 22, "stale": 14, "modack": 8, "pull-due": 12, "sweep": 5, "job": 8, "seek-time": 1, "seek-snapshot": 0, "snapshot": 0, "stream": 6, "foreign": 3, "delete-sub": 0, "delete-topic": 0})},
+		}
+	case "C04":
+		return []hist.Profile{
+			{Name: "lease", Ops: 140, Topics: 1, Subs: 3, POrdered: 0.1, PFilter: 0.1, PDL: 0, PRetry: 0.85,
+				Keys: []string{""}, W: weights(map[string]int{"publish": 12, "pull": 22, "pull-due": 30, "ack": 4, "ack-all": 0, "modack": 16, "jump": 16, "jump-long": 0, "seek-time": 0, "seek-snapshot": 0, "snapshot": 0, "delete-sub": 0, "delete-topic": 0, "create-topic": 0, "update-sub": 1, "sweep": 0, "job": 2, "stream": 2})},
+			{Name: "lease-default", Ops: 160, Topics: 1, Subs: 2, PRetry: 0,
+				Keys: []string{""}, W: weights(map[string]int{"publish": 6, "pull": 10, "pull-due": 40, "ack": 2, "ack-all": 0, "modack": 10, "jump": 10, "jump-long": 0, "seek-time": 0, "seek-snapshot": 0, "snapshot": 0, "delete-sub": 0, "delete-topic": 0, "create-topic": 0, "update-sub": 0, "sweep": 0, "job": 0, "stream": 0, "bad": 1})},
+		}
+	case "C05":
+		return []hist.Profile{
+			{Name: "order", Ops: 130, Topics: 1, Subs: 3, POrdered: 0.9, PFilter: 0.2, PDL: 0, PRetry: 0.7,
+				Retentions: []time.Duration{0, 0, 10 * min}, Keys: []string{"", "k1", "k1", "k2", "k3"},
+				W: weights(map[string]int{"publish": 30, "pull": 25, "pull-due": 10, "ack": 20, "modack": 8, "job": 10, "seek-time": 0, "seek-snapshot": 0, "snapshot": 0, "sweep": 0, "update-sub": 0, "delete-topic": 0, "stream": 4})},
+			{Name: "order-dl", Ops: 130, Topics: 2, Subs: 3, POrdered: 0.8, PFilter: 0.1, PDL: 0.5, PRetry: 0.8,
+				Keys: []string{"", "k1", "k1", "k2"}, MaxAttempt: []int32{1, 2, 3},
+				W: weights(map[string]int{"publish": 30, "pull": 25, "pull-due": 14, "ack": 14, "modack": 8, "job": 8, "sweep": 5, "seek-time": 0, "seek-snapshot": 0, "snapshot": 0, "update-sub": 0, "delete-topic": 0})},
+			{Name: "order-seek-retention", Ops: 130, Topics: 1, Subs: 2, POrdered: 1, PRetry: 0.7,
+				Retentions: []time.Duration{0, 10 * min}, Keys: []string{"k1", "k1", "k2", ""},
+				W: weights(map[string]int{"publish": 30, "pull": 25, "ack": 18, "seek-time": 6, "snapshot": 3, "seek-snapshot": 4, "update-sub": 4, "job": 8, "delete-topic": 0})},
+		}
+	case "C06":
+		return []hist.Profile{
+			{Name: "deadletter", Ops: 120, Topics: 3, Subs: 4, POrdered: 0.15, PFilter: 0.35, PDL: 0.7, PRetry: 0.8,
+				Keys: []string{"", "", "k1"}, MaxAttempt: []int32{1, 2, 3, 5},
+				W: weights(map[string]int{"publish": 22, "pull": 22, "pull-due": 22, "ack": 6, "modack": 10, "sweep": 10, "jump": 10, "seek-time": 0, "seek-snapshot": 0, "snapshot": 0, "delete-topic": 2, "create-topic": 2, "delete-sub": 2, "create-sub": 3, "stream": 3})},
+		}
+	case "C13":
+		return []hist.Profile{
+			{Name: "seek", Ops: 120, Topics: 2, Subs: 3, POrdered: 0.15, PFilter: 0.3, PDL: 0, PRetry: 0.6,
+				Retentions: []time.Duration{0, hour, 10 * min}, Keys: []string{"", "k1"},
+				W: weights(map[string]int{"publish": 26, "pull": 24, "ack": 18, "seek-time": 12, "snapshot": 8, "seek-snapshot": 10, "job": 6, "sweep": 0, "delete-topic": 1, "stream": 3})},
+		}
+	case "C14":
+		return []hist.Profile{
+			{Name: "retention", Ops: 110, Topics: 2, Subs: 4, POrdered: 0.2, PFilter: 0.2, PDL: 0.1, PRetry: 0.5,
+				Retentions: []time.Duration{10 * sec, 10 * min, 0, 31 * day}, TTLs: []time.Duration{min, day, 0, 365 * day},
+				Keys: []string{"", "k1"},
+				W: weights(map[string]int{"publish": 22, "pull": 24, "pull-due": 6, "ack": 8, "jump": 16, "jump-long": 6, "expire-job": 10, "update-ttl": 4, "set-delay": 6, "seek-time": 3, "job": 6, "create-sub": 5})},
+		}
+	case "C15":
+		return []hist.Profile{
+			{Name: "prune", Ops: 140, Topics: 3, Subs: 4, POrdered: 0.4, PFilter: 0.3, PDL: 0.3, PRetry: 0.6,
+				Retentions: []time.Duration{0, 10 * min, 20 * sec}, Keys: []string{"", "k1", "k2"},
+				W: weights(map[string]int{"job": 40, "expire-job": 3, "jump-long": 3, "delete-sub": 3, "create-sub": 4, "delete-topic": 2, "create-topic": 2})},
 		}
 	}
 	return nil
@@ -54,3 +113,10 @@ func runHistProperty(t *testing.T, prop string, quick, thorough int) {
 }
 
 func TestC01(t *testing.T) { runHistProperty(t, "C01", 320, 16000) }
+func TestC02(t *testing.T) { runHistProperty(t, "C02", 320, 12000) }
+func TestC03(t *testing.T) { runHistProperty(t, "C03", 320, 12000) }
+func TestC04(t *testing.T) { runHistProperty(t, "C04", 320, 12000) }
+func TestC05(t *testing.T) { runHistProperty(t, "C05", 384, 16000) }
+func TestC06(t *testing.T) { runHistProperty(t, "C06", 320, 12000) }
+func TestC13(t *testing.T) { runHistProperty(t, "C13", 320, 12000) }
+func TestC14(t *testing.T) { runHistProperty(t, "C14", 320, 12000) }
